@@ -262,11 +262,27 @@ def thread_run(jp, rec, R, run_id):
     env = JSONPathEnvironment()
     T = R.randint(4, 8)
     jobs = []
+    # some compiled query objects are shared by all threads (evaluated concurrently on different documents)
+    shared = {}
+    for text in R.sample(SPECIAL, 5) + [gen_query_text(R) for _ in range(3)]:
+        try:
+            shared[text] = env.compile(text)
+        except Exception:  # noqa: BLE001
+            pass
+    shared_texts = sorted(shared)
+    burst = ["$.b%d_%d[?@.x == %d]" % (run_id.__hash__() % 97, i, i) for i in range(40)]
     for t in range(T):
         mine = []
         for _ in range(R.randint(6, 14)):
-            text = gen_query_text(R)
-            mine.append((text, make_doc(R), R.choice(["list", "step", "handoff"])))
+            r = R.random()
+            if r < 0.35 and shared_texts:
+                mine.append((R.choice(shared_texts), make_doc(R), "shared-" + R.choice(["list", "step"])))
+            elif r < 0.45:
+                # many distinct new query texts compiled back to back
+                for b in R.sample(burst, 6):
+                    mine.append((b + " ", None, "compile-only") if False else (b, make_doc(R), "list"))
+            else:
+                mine.append((gen_query_text(R), make_doc(R), R.choice(["list", "step", "handoff"])))
         jobs.append(mine)
     # sequential reference (fresh environment, no threads)
     ref_env = JSONPathEnvironment()
@@ -290,7 +306,11 @@ def thread_run(jp, rec, R, run_id):
             start.wait()
             for j, (text, doc, how) in enumerate(jobs[t]):
                 try:
-                    q = env.compile(text)
+                    if how.startswith("shared-"):
+                        q = shared[text]
+                        how = how[7:]
+                    else:
+                        q = env.compile(text)
                     if how == "list":
                         results[t][j] = ("ok", sig_list(q.find(doc)))
                     elif how == "step":
